@@ -419,6 +419,37 @@ func runScript(sc *Script) *Outcome {
 	var concOnce sync.Once
 	aborted := false
 	for i, call := range sc.Prog {
+		if call.Api == "flood" {
+			// the server has stopped reading: write media until the queue is full (the writer is then stuck
+			// in a write that will hit WriteTimeout), wait until Pct % of WriteTimeout have passed
+			var md *description.Media
+			switch {
+			case r.recDesc != nil && call.Media < len(r.recDesc.Medias):
+				md = r.recDesc.Medias[call.Media]
+			case r.desc != nil && call.Media < len(r.desc.Medias):
+				md = r.desc.Medias[call.Media]
+			}
+			if md != nil && r.setUp[call.Media] && !r.isClosed() {
+				t0 := time.Now()
+				stall := time.Time{}
+				for sq := 0; time.Since(t0) < 1500*time.Millisecond; sq++ {
+					err := c.WritePacketRTP(md, &rtp.Packet{
+						Header:  rtp.Header{Version: 2, PayloadType: md.Formats[0].PayloadType(), SequenceNumber: uint16(sq), Timestamp: uint32(sq * 90)},
+						Payload: make([]byte, 1300),
+					})
+					if err != nil {
+						stall = time.Now()
+						break
+					}
+				}
+				if !stall.IsZero() {
+					if d := time.Duration(call.Pct)*wt/100 - time.Since(stall); d > 0 {
+						time.Sleep(d)
+					}
+				}
+			}
+			continue
+		}
 		if call.Api == "sleep" {
 			// a playing session with at least one media the client READS from must notice a server that
 			// went silent: the inbound-silence check (every second; UDP: first after InitialUDPReadTimeout)
